@@ -73,9 +73,10 @@ def box_amount(rng, su, smin, neg_ok=True):
 def hostile_spec(rng):
     sp = c15.random_spec(rng)
     if rng.random() < 0.2:
-        sp["width"] = rng.choice([0, 41, 100, 255])
+        sp["width"] = rng.choice([0, 41, 100, 255, 256, 1000])
     if rng.random() < 0.2:
-        sp["prec"] = rng.choice([0, 19, 20, 30, 60])
+        # incl. the limits of narrower integer types (i8, u8), in case the precision is converted on the way
+        sp["prec"] = rng.choice([0, 19, 20, 30, 60, 127, 128, 129, 200, 255, 256, 300, 1000])
     return sp
 
 
